@@ -60,6 +60,9 @@ type c19Entry struct {
 	// binary form: argv with {out} placeholder, files to write, optional stdout redirection
 	argv  []string
 	files map[string]string
+	// fileOnly: the command has no standard-output form; noCompare: the bytes of a run whose limit
+	// does not bind are not compared with the fault-free file
+	fileOnly, noCompare bool
 }
 
 const c19Entries = 19
@@ -68,7 +71,7 @@ func init() {
 	fw.Register(&fw.Property{
 		ID:    "C19",
 		Level: "fault_enumeration",
-		Rule: "for every entry point that takes an output writer (sam toMultiAlign plain and wrapped, sam variants and variants per-sequence and --aggregate, snps per-sequence and --aggregate, closest plain / -n list / -n table, updown list, updown topranking list and table, plus toPairAlign through the binary) and three representative inputs each (incl. one whose result rows are empty): the fault-free run is observed once to learn the number W of Write calls and their sizes, then a write failure is injected at the k-th Write for every k in 1..W, one-shot and sticky, and the call must return a non-nil error; at binary level the same commands run under RLIMIT_FSIZE = L for every write boundary L (and L-1, L+1, 0 and random offsets) of the fault-free output and must exit non-zero iff L is smaller than the fault-free size; " +
+		Rule: "for every entry point that takes an output writer (sam toMultiAlign plain and wrapped, sam variants and variants per-sequence and --aggregate, snps per-sequence and --aggregate, closest plain / -n list / -n table, updown list, updown topranking list and table, plus toPairAlign and the two tables of sam indels (to separate files and to one file) through the binary) and three representative inputs each (incl. one whose result rows are empty): the fault-free run is observed once to learn the number W of Write calls and their sizes, then a write failure is injected at the k-th Write for every k in 1..W, one-shot and sticky, and the call must return a non-nil error; at binary level the same commands run under RLIMIT_FSIZE = L for every write boundary L (and L-1, L+1, 0 and random offsets) of the fault-free output and must exit non-zero iff L is smaller than the fault-free size; " +
 			"distinct non-trivial = distinct (entry point, input, k, mode) faults injected in-process plus distinct (command, input, L) limits at binary level",
 		Assumptions: []string{"RLIMIT_FSIZE makes the kernel accept exactly L bytes and fail the next write(2) with EFBIG: a real device-full at an exact byte with no instrumentation in the target",
 			"a call that neither returns nor makes progress after an injected failure is a violation only if the goroutine dump shows a closed channel deadlock"},
@@ -287,7 +290,14 @@ func c19MakeEntry(r *fw.Rng, e int, variant int) c19Entry {
 		if insSide {
 			name = "sam indels (insertions output fails)"
 		}
-		return c19Entry{name: name, files: map[string]string{"in.sam": sf.Text},
+		// binary form: the insertions table to a size-limited file with the deletions to /dev/null,
+		// and both tables sent to one and the same file (the bytes that land there are not judged,
+		// only that a refused write is reported)
+		argv := []string{"sam", "indels", "-s", "{in.sam}", "--threshold", "1", "--insertions-out", "{out}", "--deletions-out", "/dev/null"}
+		if !insSide {
+			argv = []string{"sam", "indels", "-s", "{in.sam}", "--threshold", "1", "--insertions-out", "{out}", "--deletions-out", "{out}"}
+		}
+		return c19Entry{name: name, argv: argv, fileOnly: true, noCompare: true, files: map[string]string{"in.sam": sf.Text},
 			call: func(w io.Writer) error {
 				var other bytes.Buffer
 				if insSide {
@@ -519,7 +529,7 @@ func runC19(c *fw.Ctx, idx int) fw.Result {
 			}
 		} else {
 			got, _ := os.ReadFile(outPath)
-			if exit != 0 || (!dirMode && string(got) != string(full)) {
+			if exit != 0 || (!dirMode && !en.noCompare && string(got) != string(full)) {
 				res.Fail(en.name+":binary:spurious-failure", fmt.Sprintf("%s: RLIMIT_FSIZE=%d is not smaller than the output size %d but the command exited %d or wrote different bytes", en.name, L, S, exit), files, argv)
 			} else {
 				res.Count("limits_not_binding_ok", 1)
@@ -527,7 +537,7 @@ func runC19(c *fw.Ctx, idx int) fw.Result {
 		}
 	}
 	// ---- closed pipe: stdout is a pipe whose reader is gone before the first byte
-	if !dirMode && S > 0 {
+	if !dirMode && !en.fileOnly && S > 0 {
 		// the same command writing to standard output ("-o stdout" is every command's default)
 		pargs := append([]string{}, args...)
 		for i := range pargs {
